@@ -1,6 +1,7 @@
 package props
 
 import (
+	"regexp"
 	_ "embed"
 	"encoding/json"
 	"encoding/xml"
@@ -88,6 +89,15 @@ func c15Cases(tier string, seed uint64) []fw.Case {
 	for i := 0; i < nrich; i++ {
 		c := c15Case{Kind: "rich", Rich: i, Seed: seed, Name: fmt.Sprintf("rich/%d", i)}
 		cs = append(cs, fw.MkCase("rich", &c))
+	}
+	// a parsed model among other documents parsed in the same program
+	nn := 8
+	if tier == "thorough" {
+		nn = 80
+	}
+	for i := 0; i < nn; i++ {
+		c := c15Case{Kind: "neighbours", Rich: i, Seed: seed, XPath: i%2 == 1, Name: fmt.Sprintf("neighbours/%d", i)}
+		cs = append(cs, fw.MkCase("neighbours", &c))
 	}
 	// mutation sweep: every attribute / text leaf of a model changed on its own, then the round trip
 	nm := 6
@@ -441,8 +451,56 @@ func c15Mutate(c *c15Case, v *fw.V) {
 	v.Add("slots", n)
 }
 
+// c15Neighbours: a model that has been parsed is not changed by parsing (serialising, re-parsing) OTHER documents
+// in the same program: documents that state another expression / type language, another namespace, or none of
+// them at all. Then the first model still round-trips to itself.
+func c15Neighbours(c *c15Case, v *fw.V) {
+	variants := func(src string) []string {
+		out := []string{src}
+		out = append(out, strings.Replace(src, gen.ExprLang, gen.XPathLang, 1))
+		out = append(out, strings.Replace(src, gen.XPathLang, gen.ExprLang, 1))
+		// the attribute left out altogether (the schema's default applies)
+		re := regexp.MustCompile(` expressionLanguage="[^"]*"`)
+		out = append(out, re.ReplaceAllString(src, ""))
+		out = append(out, strings.Replace(src, `targetNamespace="http://bpmn.io/schema/bpmn"`, `targetNamespace="http://example.org/other" typeLanguage="http://example.org/types"`, 1))
+		return out
+	}
+	base := richXML(c.Seed, c.Rich)
+	if c.XPath {
+		base = strings.Replace(base, gen.ExprLang, gen.XPathLang, 1)
+	}
+	first, err := schema.Parse([]byte(base))
+	if err != nil {
+		v.Inconclusive("parse", "%v", err)
+		return
+	}
+	dump := canon.Model(first)
+	others := append(variants(richXML(c.Seed, c.Rich+1)), variants(base)...)
+	if k, err := c15Source("@kitchen"); err == nil {
+		others = append(others, string(k))
+	}
+	for i, o := range others {
+		d, err := schema.Parse([]byte(o))
+		if err != nil {
+			v.Inconclusive("parse", "neighbour %d: %v", i, err)
+			return
+		}
+		if out, err := xml.Marshal(d); err == nil {
+			schema.Parse(out)
+		}
+		if now := canon.Model(first); !reflect.DeepEqual(now, dump) {
+			v.Violate("parse-alters-other-model", "neighbours", "a model parsed earlier changed when another document (variant %d) was parsed and serialised in the same program: %v", i, canon.Diff(dump, now))
+			return
+		}
+		v.Add("neighbours", 1)
+	}
+	c15Model(v, "neighbours", first)
+}
+
 func c15Run(c *c15Case, env *fw.Env, v *fw.V) {
 	switch c.Kind {
+	case "neighbours":
+		c15Neighbours(c, v)
 	case "mutate":
 		c15Mutate(c, v)
 	case "file":
